@@ -474,6 +474,15 @@ class StmtMixin:
         n = self.iter_len(d)
         nc = z3.simplify(n)
         nf = Frame(fr.func, fr.module, None, parent_env=fr)
+        top = getattr(self, "top_contract", None)
+        bound = top.options.get("comp_bound") if top is not None else None
+        if not z3.is_int_value(nc) and bound is not None and not self.pure:
+            # BOUNDED stand-in: the source has at most `bound` elements; its length is decided case by case
+            self.bounded_used = True
+            self.assumptions.add(f"BOUNDED: comprehension sources limited to {bound} elements")
+            st.assume(n <= bound)
+            k = st.branch([n == c for c in range(bound + 1)], "comp-len")
+            nc = z3.IntVal(k)
         if z3.is_int_value(nc) and nc.as_long() <= UNROLL_LIMIT and not self.pure:
             out = []
             ety = None
